@@ -63,6 +63,7 @@ DECODERS = {
     'sidtlv': lambda b: items(BGPPrefixSID.unpack(b).dict()[40] if hasattr(BGPPrefixSID.unpack(b), 'dict') else BGPPrefixSID.unpack(b)),
     'lsnlri': lambda b: items(BGPLS.parse(b)),
     'pathattr': lambda b: sorted(canon([k, v]) for k, v in Update.parse_attributes(b, True).items()),
+    'pathattr2': lambda b: sorted(canon([k, v]) for k, v in Update.parse_attributes(b, False).items()),
 }
 
 
@@ -92,7 +93,7 @@ def run(job):
         else:       # insert: parts = a, unknown, b ; expectation = decode(a) + decode(b)
             da, db = decode(kind, [parts[0]]), decode(kind, [parts[2]])
             line['parts_ok'] = len(da) >= 1 and len(db) >= 1
-            line['rhs'] = da + db if kind not in ('cap', 'pathattr') else sorted(set(da + db))
+            line['rhs'] = da + db if kind not in ('cap', 'pathattr', 'pathattr2') else sorted(set(da + db))
     except Exception as e:
         line['err'] = 'separate decode raised %r' % (e,)
         return line
